@@ -4,3 +4,4 @@ import Proofs.Serdes
 import Proofs.Batcher
 import Proofs.Policy
 import Proofs.Strategy
+import Proofs.Wire
